@@ -459,9 +459,11 @@ func constructorCtx(c *LCtx) bool {
 	return false
 }
 
-func ruleL3(r *Report, onlyRoots func(string) bool) {
+func ruleL3(r *Report, onlyRoots func(string) bool) { ruleL3f(r, onlyRoots, 40) }
+
+func ruleL3f(r *Report, onlyRoots func(string) bool, floor int) {
 	L := r.Shared.Lockset()
-	h := r.Rule("L3", "L", "every access to column storage (presence bitmaps, value arrays, whole-collection bitmaps, the enum table) outside growth and construction holds the block latch on every call path from the API root", 40)
+	h := r.Rule("L3", "L", "every access to column storage (presence bitmaps, value arrays, whole-collection bitmaps, the enum table) outside growth and construction holds the block latch on every call path from the API root", floor)
 	// storage accesses per context
 	type acc struct {
 		ins  ssa.Instruction
@@ -685,10 +687,9 @@ func ruleL4(r *Report) {
 // ---------------------------------------------------------------------------------------------
 // L5: commit ids and emission under the exclusive latch
 
-func ruleL5(r *Report) {
+func ruleL5id(r *Report) {
 	L := r.Shared.Lockset()
 	hid := r.Rule("L5.id", "L+def-use", "the commit id of a block is drawn (commit.Next) while the block's exclusive latch is held, and the id stored for the block and handed to the commit callback is that value", 3)
-	hem := r.Rule("L5.emit", "L", "every append of a commit to the logger or to the snapshot recorder, and the test whether a snapshot is recording, happen while the block's exclusive latch is held", 3)
 	// (1) commit.Next call sites in the library
 	nextSites := L.SitesOf(func(ins ssa.Instruction) bool {
 		cc, _, _ := callCommon(ins)
@@ -752,6 +753,11 @@ func ruleL5(r *Report) {
 	} else {
 		r.Unresolve("global commit.id")
 	}
+}
+
+func ruleL5emit(r *Report) {
+	L := r.Shared.Lockset()
+	hem := r.Rule("L5.emit", "L", "every append of a commit to the logger or to the snapshot recorder, and the test whether a snapshot is recording, happen while the block's exclusive latch is held", 3)
 	// (3) Append sites
 	appendSites := L.SitesOf(func(ins ssa.Instruction) bool {
 		cc, _, _ := callCommon(ins)
@@ -1046,3 +1052,5 @@ func ruleL9(r *Report) {
 		}
 	}
 }
+
+// ruleL7 is defined in rules_l7.go
